@@ -519,8 +519,24 @@ type plKV struct {
 	dmKV
 }
 
-// WrapPipeline issues every supported operation as a one-command pipeline on a ClusterDMap.
+// WrapPipeline issues every supported operation through a pipeline of a ClusterDMap. The operation
+// is not alone in its pipeline: commands of every value-carrying kind on two decoy keys are queued
+// before and after it (other values, other lengths), so that whatever a queued command keeps from
+// the call that queued it - a buffer, an option struct - has been reused by the time Exec sends it.
 func WrapPipeline(dm olric.DMap) KV { return &plKV{dmKV{"PL", dm}} }
+
+func (k *plKV) before(p *olric.DMapPipeline) {
+	p.Put(bg, "pl~decoy-a", []byte("decoy-before-0123456789"))
+	p.GetPut(bg, "pl~decoy-b", []byte("decoy-before-getput"))
+	p.Incr(bg, "pl~decoy-n", 7)
+}
+
+func (k *plKV) after(p *olric.DMapPipeline) {
+	p.GetPut(bg, "pl~decoy-b", []byte("DECOY-AFTER"))
+	p.Put(bg, "pl~decoy-a", []byte("DECOY-AFTER-PUT-WITH-ANOTHER-LENGTH"), olric.EX(time.Hour))
+	p.Expire(bg, "pl~decoy-a", 90*time.Minute)
+	p.Incr(bg, "pl~decoy-n", 1000)
+}
 
 func (k *plKV) pipe() *olric.DMapPipeline {
 	p, err := k.dm.Pipeline()
@@ -533,10 +549,12 @@ func (k *plKV) pipe() *olric.DMapPipeline {
 func (k *plKV) Put(key string, val []byte, o PutOpt) Res {
 	p := k.pipe()
 	defer p.Close()
+	k.before(p)
 	f, err := p.Put(bg, key, val, putOptions(o)...)
 	if err != nil {
 		return Res{Err: ErrClass(err)}
 	}
+	k.after(p)
 	if err := p.Exec(bg); err != nil {
 		return Res{Err: ErrClass(err)}
 	}
@@ -546,7 +564,9 @@ func (k *plKV) Put(key string, val []byte, o PutOpt) Res {
 func (k *plKV) Get(key string) Res {
 	p := k.pipe()
 	defer p.Close()
+	k.before(p)
 	f := p.Get(bg, key)
+	k.after(p)
 	if err := p.Exec(bg); err != nil {
 		return Res{Err: ErrClass(err)}
 	}
@@ -556,10 +576,12 @@ func (k *plKV) Get(key string) Res {
 func (k *plKV) Del(keys ...string) Res {
 	p := k.pipe()
 	defer p.Close()
+	k.before(p)
 	var fs []*olric.FutureDelete
 	for _, key := range keys {
 		fs = append(fs, p.Delete(bg, key))
 	}
+	k.after(p)
 	if err := p.Exec(bg); err != nil {
 		return Res{Err: ErrClass(err)}
 	}
@@ -577,10 +599,12 @@ func (k *plKV) Del(keys ...string) Res {
 func (k *plKV) Incr(key string, d int) Res {
 	p := k.pipe()
 	defer p.Close()
+	k.before(p)
 	f, err := p.Incr(bg, key, d)
 	if err != nil {
 		return Res{Err: ErrClass(err)}
 	}
+	k.after(p)
 	if err := p.Exec(bg); err != nil {
 		return Res{Err: ErrClass(err)}
 	}
@@ -591,10 +615,12 @@ func (k *plKV) Incr(key string, d int) Res {
 func (k *plKV) Decr(key string, d int) Res {
 	p := k.pipe()
 	defer p.Close()
+	k.before(p)
 	f, err := p.Decr(bg, key, d)
 	if err != nil {
 		return Res{Err: ErrClass(err)}
 	}
+	k.after(p)
 	if err := p.Exec(bg); err != nil {
 		return Res{Err: ErrClass(err)}
 	}
@@ -605,10 +631,12 @@ func (k *plKV) Decr(key string, d int) Res {
 func (k *plKV) IncrByFloat(key string, d float64) Res {
 	p := k.pipe()
 	defer p.Close()
+	k.before(p)
 	f, err := p.IncrByFloat(bg, key, d)
 	if err != nil {
 		return Res{Err: ErrClass(err)}
 	}
+	k.after(p)
 	if err := p.Exec(bg); err != nil {
 		return Res{Err: ErrClass(err)}
 	}
@@ -619,10 +647,12 @@ func (k *plKV) IncrByFloat(key string, d float64) Res {
 func (k *plKV) GetPut(key string, val []byte) Res {
 	p := k.pipe()
 	defer p.Close()
+	k.before(p)
 	f, err := p.GetPut(bg, key, val)
 	if err != nil {
 		return Res{Err: ErrClass(err)}
 	}
+	k.after(p)
 	if err := p.Exec(bg); err != nil {
 		return Res{Err: ErrClass(err)}
 	}
@@ -636,10 +666,12 @@ func (k *plKV) GetPut(key string, val []byte) Res {
 func (k *plKV) Expire(key string, d time.Duration) Res {
 	p := k.pipe()
 	defer p.Close()
+	k.before(p)
 	f, err := p.Expire(bg, key, d)
 	if err != nil {
 		return Res{Err: ErrClass(err)}
 	}
+	k.after(p)
 	if err := p.Exec(bg); err != nil {
 		return Res{Err: ErrClass(err)}
 	}
